@@ -538,7 +538,7 @@ def sortDb (val : Option Value) (o : SortOpts) (items : List Bytes) (db : Db) : 
         | .ok keyed => .ok ((if o.desc then descSort numLe keyed else stableSort numLe keyed).map Prod.snd))
   else
     (db, .ok (match val with
-      | some (.list _) | some (.zset _) => items.reverse
+      | some (.list _) | some (.zset _) => if o.desc then items.reverse else items
       | _ => items))
 
 def getsOf (o : SortOpts) : List Bytes := if o.gets.isEmpty then [[35]] else o.gets
@@ -877,7 +877,7 @@ def sortedLive (live : Bytes → Option Item) (val : Option Value) (o : SortOpts
       | .ok keyed => .ok ((if o.desc then descSort numLe keyed else stableSort numLe keyed).map Prod.snd)
   else
     .ok (match val with
-      | some (.list _) | some (.zset _) => items.reverse
+      | some (.list _) | some (.zset _) => if o.desc then items.reverse else items
       | _ => items)
 
 /-- the rows selected by LIMIT -/
@@ -1167,8 +1167,12 @@ theorem sortedLive_perm {live : Bytes → Option Item} {val : Option Value} {o :
         · exact ZStore.stableSort_perm _ _
   · cases h
     split
-    · exact List.reverse_perm _
-    · exact List.reverse_perm _
+    · split
+      · exact List.reverse_perm _
+      · exact List.Perm.refl _
+    · split
+      · exact List.reverse_perm _
+      · exact List.Perm.refl _
     · exact List.Perm.refl _
 
 theorem sortedLive_length {live : Bytes → Option Item} {val : Option Value} {o : SortOpts} {items sorted : List Bytes}
@@ -1324,7 +1328,7 @@ theorem sortedLive_nosort {live : Bytes → Option Item} {val : Option Value} {o
     (hd : o.dontsort = true) :
     sortedLive live val o items =
       .ok (match val with
-        | some (.list _) | some (.zset _) => items.reverse
+        | some (.list _) | some (.zset _) => if o.desc then items.reverse else items
         | _ => items) := by
   unfold sortedLive
   simp only [hd, Bool.not_true, Bool.false_eq_true, if_false]
@@ -1601,7 +1605,7 @@ def Opt.apply (o : SortOpts) : Opt → SortOpts
   | .alpha => { o with alpha := true }
   | .limit s c => { o with limitStart := s, limitCount := c }
   | .store x => { o with store := some x }
-  | .sortBy x => { o with sortby := some x, dontsort := if x.contains 42 then o.dontsort else true }
+  | .sortBy x => { o with sortby := some x, dontsort := !x.contains 42 }
   | .get x => { o with gets := o.gets ++ [x] }
 
 /-- the tokens that spell an option (keywords in any case) -/
@@ -1638,7 +1642,7 @@ theorem parse_cons (a : Bytes) (rest : List Bytes) (o : SortOpts) :
       | [] => .error Msgs.SYNTAX_ERROR_MSG
     else if casematch a "by" && rest.length ≥ 1 then
       match rest with
-      | x :: rest' => parseSortOpts rest' { o with sortby := some x, dontsort := if x.contains 42 then o.dontsort else true }
+      | x :: rest' => parseSortOpts rest' { o with sortby := some x, dontsort := !x.contains 42 }
       | [] => .error Msgs.SYNTAX_ERROR_MSG
     else if casematch a "get" && rest.length ≥ 1 then
       match rest with
@@ -2104,7 +2108,7 @@ theorem specLive_nil (live : Bytes → Option Item) (val : Option Value) (o : So
       · simp only [ha, if_true, alphaKeyed, List.map_nil, descSort, List.reverse_nil, stableSort_nil, ite_self]
       · simp only [ha, Bool.false_eq_true, if_false, numKeyed_nil, descSort, List.reverse_nil, stableSort_nil, ite_self,
           List.map_nil]
-    · simp only [hd, Bool.false_eq_true, if_false, List.reverse_nil]
+    · simp only [hd, Bool.false_eq_true, if_false, List.reverse_nil, ite_self]
       cases val with
       | none => rfl
       | some v => cases v <;> rfl
@@ -2185,5 +2189,32 @@ theorem takeItems_some {v : Option Value} {s : Sys} {items : List Bytes} (h : (t
           subst h
           exact ⟨restp, rfl, hv, rfl⟩
         · simp only [hv, Bool.false_eq_true, if_false, reduceCtorEq] at h
+
+/-! ## 13. The last BY decides -/
+
+def Opt.isBy : Opt → Bool
+  | .sortBy _ => true
+  | _ => false
+
+/-- options other than BY leave the BY pattern and the "do not sort" flag alone -/
+theorem foldl_noBy (rest : List Opt) (h : ∀ op ∈ rest, op.isBy = false) (o : SortOpts) :
+    (rest.foldl Opt.apply o).sortby = o.sortby ∧ (rest.foldl Opt.apply o).dontsort = o.dontsort := by
+  induction rest generalizing o with
+  | nil => exact ⟨rfl, rfl⟩
+  | cons op rest ih =>
+    rw [List.foldl_cons]
+    obtain ⟨h1, h2⟩ := ih (fun q hq => h q (List.mem_cons_of_mem _ hq)) (Opt.apply o op)
+    rw [h1, h2]
+    have := h op List.mem_cons_self
+    cases op <;> first | exact ⟨rfl, rfl⟩ | cases this
+
+/-- the LAST `BY x` decides: its pattern is used, and sorting is off iff `x` contains no `*` -/
+theorem last_by (pre rest : List Opt) (x : Bytes) (h : ∀ op ∈ rest, op.isBy = false) (o : SortOpts) :
+    ((pre ++ .sortBy x :: rest).foldl Opt.apply o).sortby = some x ∧
+    ((pre ++ .sortBy x :: rest).foldl Opt.apply o).dontsort = !x.contains 42 := by
+  rw [List.foldl_append, List.foldl_cons]
+  obtain ⟨h1, h2⟩ := foldl_noBy rest h (Opt.apply (pre.foldl Opt.apply o) (.sortBy x))
+  rw [h1, h2]
+  exact ⟨rfl, rfl⟩
 
 end FR.SortSpec
